@@ -1,4 +1,5 @@
 import PvModel.Props.C16
+import PvModel.Props.C16Rel
 #print axioms Pv.C16_ground_plus
 #print axioms Pv.C16_ground_minus
 #print axioms Pv.C16_ground_times
@@ -19,3 +20,5 @@ import PvModel.Props.C16
 #print axioms Pv.C16_distinctfd_meaning
 #print axioms Pv.C16_live
 #print axioms Pv.C16_ground_answer_sound
+#print axioms Pv.C16_rel_program_sound
+#print axioms Pv.C16_rel_call_sound
